@@ -26,6 +26,22 @@ def gen(rng, tier, n_quick=60, n_thorough=1500):
     for i in range(4 if tier == "quick" else 40):
         # a strut pinned at both ends that carries no load of its own: with -w it has its weight to carry like every other bar
         cases.append(core.case_from_struct(G.gen_bracket(rng), Weight=(i % 4 != 3), Solve=True, Assemble=True, Error="1e-6", ViaPre=(i % 2 == 1)))
+    # a beam held at its END node with a concentrated moment and a force inside its span next to a distributed load (the three
+    # diagrams then have different numbers of entries), and the same kind of beam drawn in a unit in which it is 5e-3 long
+    for i in range(2 if tier == "quick" else 12):
+        s = G.gen_beam(rng)
+        b = s.bars[0]
+        s.nodes[b["n1"]] = s.nodes[b["n1"]][:2] + ((True, True, False),)
+        s.nodes[b["n2"]] = s.nodes[b["n2"]][:2] + ((True, True, True),)
+        s.loads = [{"kind": "d", "term": "fy", "local": True, "bar": b["id"], "t0": Fr(0), "v0": Fr(-12), "t1": Fr(1), "v1": Fr(-3)},
+                   {"kind": "d", "term": "fx", "local": True, "bar": b["id"], "t0": Fr("0.2"), "v0": Fr(0), "t1": Fr("0.9"), "v1": Fr(8)},
+                   {"kind": "c", "term": "mz", "local": True, "bar": b["id"], "t": Fr("0.35"), "v": Fr(25000)},
+                   {"kind": "c", "term": "fx" if i % 2 else "fy", "local": True, "bar": b["id"], "t": Fr("0.62"), "v": Fr(-400)}]
+        s.meta = {"kind": "interior-moment"}
+        if i % 2 == 1:
+            s = G.convert_units(s, Fr(1, 10 ** 5), Fr(1))
+            s.meta = {"kind": "interior-moment/tiny-lengths"}
+        cases.append(core.case_from_struct(s, Weight=False, Solve=True, Assemble=True, Error="1e-5" if i % 2 == 0 else "1e-4", ViaPre=(i % 4 == 2)))
     # one bar cut into many unequal finite elements (past any small fixed size), loads of every kind along it
     for (a, b, e) in ((14, 0, "1e-5"), (26, 0, "1e-4"), (8, 8, "1e-3")) if tier == "quick" else ((14, 0, "1e-5"), (26, 0, "1e-4"), (8, 8, "1e-3"), (30, 0, "1e-4"), (22, 8, "1e-3"), (18, 4, "1e-3")):
         cases.append(core.case_from_struct(G.gen_many_positions(rng, a, b), Weight=False, Solve=True, Assemble=True, Error=e, ViaPre=(a == 26)))
